@@ -219,6 +219,35 @@ fn check(c: &Case, lo: &mut Local, st: &mut Stats) -> Result<(), Failure> {
     Ok(())
 }
 
+/// Raw ASCII keys (not a Bengali text mapped back through the layout): what the keys compose is up to the layout; every
+/// list on the way is judged.  Used for the emoticon table, whose entries are looked up on the RAW key text.
+fn check_raw(optidx: usize, ascii: &str, lo: &mut Local, st: &mut Stats) -> Result<(), Failure> {
+    let ctx = &lo.ctxs[optidx % N_OPT];
+    let case = || json!({"optidx": optidx, "raw_keys": ascii});
+    let pf = |p: crate::driver::PanicInfo| Failure::new(panic_kind(&p), p.to_string(), case());
+    ctx.finish().map_err(pf)?;
+    let mut raw = String::new();
+    for ch in ascii.chars() {
+        if !keys().has_char(ch) {
+            ctx.finish().map_err(pf)?;
+            return Ok(());
+        }
+        let code = keys().code_for(ch);
+        let ki = keys().by_code(code).unwrap();
+        if layout_value(&lo.lay, ki, false, true).is_some() {
+            raw.push(ch);
+        }
+        let r = ctx.key(code, 0, 0).map_err(pf)?;
+        st.evals(1);
+        if r.is_empty() {
+            continue;
+        }
+        judge(&ctx.opts, &r, &raw, false, st, &case)?;
+    }
+    ctx.finish().map_err(pf)?;
+    Ok(())
+}
+
 fn checked(c: &Case, lo: &mut Local, st: &mut Stats) -> Result<(), Failure> {
     with_fresh_retry(lo, mk_local, |l, s| check(c, l, s), st)
 }
@@ -310,6 +339,21 @@ pub fn run(run: &Run) {
             }
         }
     }
+    // every emoticon of the table as raw keys (the table is looked up on the raw key text) x all 16 option sets: the composed
+    // text - with its quotes curled - stays the first candidate whatever else the raw text means
+    let emoticons: Vec<String> = emoji().emoticons.iter().map(|(k, _)| k.clone()).collect();
+    run.exhaustive(
+        "emoticon-table-as-raw-keys",
+        &emoticons,
+        |_| mk_local(),
+        |e, st, lo| {
+            for optidx in 0..N_OPT {
+                with_fresh_retry(lo, mk_local, |l, s| check_raw(optidx, e, l, s), st)?;
+            }
+            st.label("emoticons-typed-as-raw-keys");
+            Ok(())
+        },
+    );
     run.exhaustive("erase-and-continue-behind-a-wrapper", &eitems, |_| mk_local(), |c, st, lo| checked(c, lo, st));
     run.require_label("with-backspace-burst", 1000);
     run.require_label("word-needs-a-number-pad-key", 1);
@@ -318,6 +362,9 @@ pub fn run(run: &Run) {
 }
 
 pub fn replay(_run: &Run, case: &Value) -> Result<(), Failure> {
+    if let Some(r) = case["raw_keys"].as_str() {
+        return check_raw(case["optidx"].as_u64().unwrap_or(0) as usize, r, &mut mk_local(), &mut Stats::new());
+    }
     let s = |k: &str| case[k].as_str().unwrap_or_default().to_string();
     let c = Case { optidx: case["optidx"].as_u64().unwrap_or(0) as usize, lead: s("lead"), word: s("word"), trail: s("trail"), retype: serde_json::from_value(case["retype"].clone()).unwrap_or_default(), burst: serde_json::from_value(case["burst"].clone()).unwrap_or_default() };
     check(&c, &mut mk_local(), &mut Stats::new())
